@@ -71,6 +71,9 @@ type gen struct {
 	pendNL   bool   // the next gap must contain a line break
 	noCmt    bool   // program without comments
 	noMay    bool   // no comments between the tokens of one item (class "may")
+	area     string // grammar area of the gap being emitted (for class "may" comments)
+	mayOff   map[string]bool // areas in which no class "may" comment is placed
+	mayAreas map[string]int  // histogram: class "may" comments per area
 	assume   map[string]bool // findings assumed known: their signatures are excluded by construction
 	cmtPct   int    // chance of a comment per slot
 	nlPct    int    // chance of a voluntary line break per free gap
@@ -227,22 +230,31 @@ func (g *gen) blockComment(c cls, multi bool, label string) string {
 			body = " " + body + " \n\t" + extra + "  \n"
 		}
 	}
-	txt := "/*" + g.noTab(body) + "*/"
+	txt := "/*" + sanitizeBlock(g.noTab(body)) + "*/"
 	g.comments = append(g.comments, comment{text: txt, must: c == clsMust})
 	return txt
 }
 
 func (g *gen) wantComment(c cls, label string) bool {
-	if c == clsNone || g.noCmt || (c == clsMay && g.noMay) {
+	if c == clsNone || g.noCmt || (c == clsMay && (g.noMay || g.mayOff[g.area])) {
 		return false
 	}
-	return g.chance(g.cmtPct, label)
+	if !g.chance(g.cmtPct, label) {
+		return false
+	}
+	if c == clsMay {
+		if g.mayAreas == nil {
+			g.mayAreas = map[string]int{}
+		}
+		g.mayAreas[g.area]++
+	}
+	return true
 }
 
 // tok emits the gap before the token, then the token.  head is the class of own-line comments
 // before this token.  The class of comments trailing the token defaults to "may"; use tr().
 func (g *gen) tok(text string, k gapKind, head cls) *gen {
-	g.gap(k, head, text)
+	g.gap(k, g.cap(head), text)
 	g.pieces = append(g.pieces, piece{text: text, isTok: true})
 	g.prev = text
 	g.trail = clsMay
@@ -250,7 +262,7 @@ func (g *gen) tok(text string, k gapKind, head cls) *gen {
 }
 
 func (g *gen) tr(c cls) *gen {
-	g.trail = c
+	g.trail = g.cap(c)
 	return g
 }
 
@@ -267,7 +279,7 @@ func (g *gen) gap(k gapKind, head cls, next string) {
 	emitted := false
 	forceNL := false
 	if g.wantComment(g.trail, "tc") {
-		if g.chance(70, "tcw") {
+		if g.chance(70, "tcw") || strings.HasSuffix(g.prev, "/") { // "/" + "//c" would lex as "///c"
 			g.raw(g.wsSame("tcws"))
 		}
 		nb := 0
@@ -528,6 +540,7 @@ func (g *gen) cap(c cls) cls {
 
 func (g *gen) syntaxStmt() {
 	g.kind("syntax")
+	g.area = "syntax"
 	g.tok("syntax", gAny, g.cap(clsMust))
 	g.tok("=", gAny, clsMay)
 	g.tok(g.str("synv", false), gAny, clsMay).tr(g.cap(clsMust))
@@ -561,6 +574,7 @@ func (g *gen) kvGroup(label string, n int, empty []bool) {
 	if n == 0 {
 		open = clsMay
 	}
+	g.area = "kv"
 	g.tok("(", gAny, clsMay).tr(g.cap(open))
 	for i := 0; i < n; i++ {
 		g.tok(g.ident(label+"key"), gAny, g.cap(clsMust))
@@ -599,11 +613,13 @@ func (g *gen) importLit() {
 	g.kind("import")
 	if g.chance(4, "impempty") {
 		g.dropped(func() {
+			g.area = "import"
 			g.tok("import", gAny, clsMay)
 			g.tok(`""`, gAny, clsMay)
 		})
 		return
 	}
+	g.area = "import"
 	g.tok("import", gAny, clsMust)
 	g.tok(g.str("impv", false), gAny, clsMay).tr(clsMust)
 }
@@ -614,6 +630,7 @@ func (g *gen) importGroup() {
 	n := g.n(0, 4, "impgn")
 	empty, allEmpty := g.empties(n, "impg")
 	body := func() {
+		g.area = "importgroup"
 		g.tok("import", gAny, g.cap(clsMust))
 		open := g.cap(clsMust)
 		if n == 0 {
@@ -638,6 +655,7 @@ func (g *gen) importGroup() {
 
 func (g *gen) typeLit() {
 	g.kind("type")
+	g.area = "typeexpr"
 	g.tok("type", gAny, clsMust)
 	g.typeExpr(clsMay)
 }
@@ -651,11 +669,13 @@ func (g *gen) typeGroup() {
 		if n == 0 {
 			open = clsMay
 		}
+		g.area = "typegroup"
 		g.tok("type", gAny, g.cap(clsMust))
 		g.tok("(", gAny, clsMay).tr(open)
 		for i := 0; i < n; i++ {
 			g.typeExpr(clsMust)
 		}
+		g.area = "typegroup"
 		g.tok(")", gAny, open).tr(g.cap(clsMust))
 	}
 	if n == 0 {
@@ -667,6 +687,7 @@ func (g *gen) typeGroup() {
 
 // typeExpr: Name [=] DataType  (parseTypeExpr)
 func (g *gen) typeExpr(head cls) {
+	g.area = "typeexpr"
 	g.tok(g.declIdent(typeNames, "tname"), gAny, head)
 	if g.chance(20, "assign") {
 		g.tok("=", gAny, clsMay)
@@ -678,6 +699,8 @@ func (g *gen) typeExpr(head cls) {
 // dataType emits one DataType (parseDataType); the gap/head class of its first token are given by
 // the caller.  structOK: a struct literal is allowed here (not directly behind '*').
 func (g *gen) dataType(depth int, structOK bool, k gapKind, head cls) {
+	outer := g.area
+	defer func() { g.area = outer }()
 	choices := []int{0, 0, 0, 1, 2, 3, 4, 5, 6, 7, 7, 0}
 	c := rapid.SampledFrom(choices).Draw(g.t, "dt")
 	if depth <= 0 && c != 1 && c != 6 {
@@ -699,10 +722,12 @@ func (g *gen) dataType(depth int, structOK bool, k gapKind, head cls) {
 		g.tok("any", k, head)
 	case 2: // slice
 		g.tok("[", k, head)
+		g.area = "datatype"
 		g.tok("]", gAny, clsMay)
 		g.dataType(depth-1, true, gAny, clsMay)
 	case 3: // array
 		g.tok("[", k, head)
+		g.area = "datatype"
 		if g.chance(30, "ellipsis") {
 			g.tok("...", gAny, clsMay)
 		} else {
@@ -712,12 +737,18 @@ func (g *gen) dataType(depth int, structOK bool, k gapKind, head cls) {
 		g.dataType(depth-1, true, gAny, clsMay)
 	case 4: // map
 		g.tok("map", k, head)
+		g.area = "datatype"
 		g.tok("[", gAny, clsMay)
+		// comments inside a map key are dropped on purpose (golden tests, /*xx*/ markers)
+		oldCap := g.capMay
+		g.capMay = true
 		g.dataType(depth-1, g.chance(4, "mapkeystruct"), gAny, clsMay)
+		g.capMay = oldCap
 		g.tok("]", gAny, clsMay)
 		g.dataType(depth-1, true, gAny, clsMay)
 	case 5: // pointer: next must be IDENT, '[', interface{} or '*'
 		g.tok("*", k, head)
+		g.area = "datatype"
 		g.dataType(depth-1, false, gAny, clsMay)
 	case 6: // interface{}
 		g.tok("interface{}", k, head)
@@ -733,10 +764,14 @@ func (g *gen) structType(depth int, k gapKind, head cls) {
 		open = clsMay
 	}
 	g.tok("{", k, head).tr(open)
+	outer := g.area
+	defer func() { g.area = outer }()
 	if depth < 2 {
 		g.nested++
 	}
+	g.area = "emptystruct"
 	for i := 0; i < nf; i++ {
+		g.area = "field"
 		g.fields++
 		fk := g.n(0, 9, "fieldkind")
 		switch {
@@ -799,24 +834,30 @@ func (g *gen) service() {
 			if n == 0 {
 				open = clsMay
 			}
+			g.area = "atserver"
 			g.tok("@server", gAny, g.cap(clsMust))
 			g.tok("(", gAny, clsMay).tr(open)
 			for i := 0; i < n; i++ {
+				g.area = "atserver"
 				g.tok(g.ident("askey"), gAny, g.cap(clsMust))
 				g.tok(":", gAny, clsMay)
 				g.serverValue(empty[i])
 				g.tr(g.cap(clsMust))
 			}
+			g.area = "atserver"
 			g.tok(")", gAny, open).tr(g.cap(clsMust))
 		}
 		if n == 0 || allEmpty {
 			g.dropped(body)
+			g.area = "servicehead"
 			g.tok("service", gAny, clsMay)
 		} else {
 			body()
+			g.area = "servicehead"
 			g.tok("service", gAny, clsMust)
 		}
 	} else {
+		g.area = "servicehead"
 		g.tok("service", gAny, clsMust)
 	}
 	g.tok(g.ident("svcname"), gSep, clsMay)
@@ -830,6 +871,7 @@ func (g *gen) service() {
 		open = clsMay
 	}
 	g.tok("{", gAny, clsMay).tr(open)
+	g.area = "emptyservice"
 	for i := 0; i < ni; i++ {
 		g.serviceItem()
 	}
@@ -838,11 +880,13 @@ func (g *gen) service() {
 
 // serverValue: the value forms of parseAtServerKVExpression.
 func (g *gen) serverValue(empty bool) {
+	defer func(old string) { g.area = old }(g.area)
 	if empty {
 		g.tok(`""`, gAny, clsMay)
 		return
 	}
 	dash := func(label string) {
+		g.area = "servervalue"
 		if g.chance(30, label) {
 			g.tok("-", gAny, clsMay)
 			g.tok(g.ident(label+"i"), gAny, clsMay)
@@ -855,11 +899,13 @@ func (g *gen) serverValue(empty bool) {
 		n := 1 + g.n(0, 2, "asvpn")
 		for i := 0; i < n; i++ {
 			g.tok("/", gAny, clsMay)
+			g.area = "servervalue"
 			g.tok(g.ident("asvps"), gAny, clsMay)
 			dash("asvpd")
 		}
 	case 2: // a/b/c
 		g.tok(g.ident("asvi2"), gAny, clsMay)
+		g.area = "servervalue"
 		n := 1 + g.n(0, 2, "asvpn2")
 		for i := 0; i < n; i++ {
 			g.tok("/", gAny, clsMay)
@@ -868,6 +914,7 @@ func (g *gen) serverValue(empty bool) {
 		}
 	case 3: // a,b,c
 		g.tok(g.ident("asvi3"), gAny, clsMay)
+		g.area = "servervalue"
 		n := 1 + g.n(0, 2, "asvcn")
 		for i := 0; i < n; i++ {
 			g.tok(",", gAny, clsMay)
@@ -875,6 +922,7 @@ func (g *gen) serverValue(empty bool) {
 		}
 	case 4: // a-b-c
 		g.tok(g.ident("asvi4"), gAny, clsMay)
+		g.area = "servervalue"
 		n := 1 + g.n(0, 2, "asvdn")
 		for i := 0; i < n; i++ {
 			g.tok("-", gAny, clsMay)
@@ -891,6 +939,7 @@ func (g *gen) serverValue(empty bool) {
 
 func (g *gen) serviceItem() {
 	g.routes++
+	g.area = "doc"
 	switch g.n(0, 3, "dock") {
 	case 1, 2: // @doc "text"
 		if g.chance(6, "docempty") {
@@ -916,8 +965,10 @@ func (g *gen) serviceItem() {
 			body()
 		}
 	}
+	g.area = "handler"
 	g.tok("@handler", gAny, clsMust)
 	g.tok(g.ident("hname"), gSep, clsMay).tr(clsMust)
+	g.area = "route"
 	g.tok(rapid.SampledFrom(httpMethods).Draw(g.t, "method"), gAny, clsMust)
 	hasReq, hasResp, semi := g.chance(60, "hasreq"), g.chance(60, "hasresp"), g.chance(15, "semi")
 	reqEmpty := hasReq && g.chance(6, "reqempty")
@@ -932,6 +983,7 @@ func (g *gen) serviceItem() {
 		return clsMay
 	}
 	g.path()
+	g.area = "routebody"
 	g.tr(endCls(!hasReq && !hasResp, false))
 	if hasReq {
 		if reqEmpty {
